@@ -1,17 +1,25 @@
 """C10 — model formulae and symbolic time courses evaluate to what they denote.
 
 Correspondence (real nipy vs the Lean model, exact rationals / 1e-9):
-  * Formula arithmetic (`+`, `-`, `*`, repeated `*`) on Term / Factor / intercept atoms: the term
-    multiset of the result (canonical monomials) and `Formula.design(data, return_float=True)`
-    as a multiset of columns (the column *order* is sympy's and is not part of the property);
-  * `Formula.design(..., contrasts=...)` contrast matrices vs the selector of the named terms;
-  * `stack_designs` / `stack_contrasts` block placement;
+  * `session` — term identity over histories (harness/props/c10_session.py, Model/C10S.lean): sequences of
+    Term / Factor / FactorTerm / Factor.fromcol / Formula.fromrec creations with colliding printed names, formula
+    arithmetic, stratify / get_term / main_effect / term products, interleaved with (repeated) designs on typed
+    record arrays; the Lean object-store machine runs with the allocation / identity policy the translator reads
+    off `class FactorTerm` in /repo (Gen/C10Policy.lean);
+  * `design` / `terms` / `counts` / `subs` — formula arithmetic (`+`, `-`, `*`, repeated `*`) on Term / Factor /
+    intercept / natural_spline atoms: term multiset, design as a multiset of columns, number of params / coefs /
+    Term atoms, `Formula.subs`;
+  * `contrast` (selector, full rank) and `contrastP` (any rank: `C = (P·L)ᵀ` with the exact Moore–Penrose inverse
+    as a parameter the model certifies), also for contrast formulae outside the formula;
+  * `recov` — `RandomEffects.cov` of a factor; `stack` — `stack_designs` / `stack_contrasts`;
   * `events`, `step_function`, `blocks`, `interp` / `linear_interp`, `convolve_functions` /
-    `TimeConvolver.convolve` through `lambdify_t(expr)(times)`.
-Oracle: the property's clauses evaluated directly on the real code (exact re-evaluation of every
-term on every row by substitution, indicator partition, superposition, block membership, knots,
-direct numerical convolution, D·Cᵀ = named columns, row-permutation invariance of event/block
-designs).
+    `TimeConvolver.convolve` (`conv`: samples given; `convfn`: the model samples on `np.arange` itself),
+    `block_amplitudes` (through `convfn`), `design.natural_spline` (through `design`), all via `lambdify_t`.
+Oracle (real code only): exact re-evaluation of every term on every row, indicator partition (also over
+histories), main effects, RandomEffects entries, superposition, block membership, knots, direct numerical
+convolution and its linear interpolation, D·Cᵀ = named columns, row-permutation invariance of event/block designs,
+`define`, `fourier_basis`, `openfmri2nipy`, the symbolic HRFs of hrf.py against their numerical definitions, the
+definitional identities of fmristat/hrf.py, `terms`, `make_recarray`.
 """
 from __future__ import annotations
 
@@ -22,7 +30,11 @@ from fractions import Fraction
 
 import numpy as np
 
-from harness.core import PropertyCheck
+import ast
+import os
+
+from harness.core import REPO, PropertyCheck, TieBroken
+from harness.props import c10_session as S
 from harness.util import Snapshot, all_close, cmp_rats, errname, fr, frs, parse_rats, plist
 
 TERM_NAMES = ["x", "y", "z", "w", "x1", "x_1", "E", "I", "S", "N", "pi", "beta", "lambda", "b0",
@@ -42,7 +54,7 @@ def F_(x):
 # ---------------------------------------------------------------------------------------------
 # generation helpers
 # ---------------------------------------------------------------------------------------------
-def _gen_world(rng, max_num=4, max_fac=2):
+def _gen_world(rng, max_num=4, max_fac=2, max_spl=2):
     nnum = rng.choice([1, 2, 2, 3, max_num])
     nfac = rng.choice([0, 1, 1, max_fac])
     names = rng.sample(TERM_NAMES, nnum)
@@ -67,11 +79,31 @@ def _gen_world(rng, max_num=4, max_fac=2):
         for fc in facs:
             row.append(fc["pool"].index(rng.choice(fc["data_levels"])))
         rows.append(row)
-    return {"names": names, "facs": facs, "rows": rows}
+    splines = []
+    # at most one spline per Term: two splines of the same Term share the names (and arguments) of their
+    # functions ns_i, and sympy's Mul is then not canonical (a*b != b*a for two different functions ns_2(x))
+    for v in rng.sample(range(nnum), min(nnum, rng.choice([0, 0, 0, 1, 1, max_spl]))):
+        splines.append({"v": v, "order": rng.choice([0, 1, 2, 3, 3]),
+                        "knots": sorted(rng.sample([-1.0, -0.5, 0.0, 0.25, 1.0, 1.5, 2.0], rng.choice([0, 1, 2, 3]))),
+                        "intercept": rng.random() < 0.3})
+    return {"names": names, "facs": facs, "rows": rows, "splines": splines}
+
+
+def _spline_fns(sp):
+    """the basis functions of natural_spline(t, knots, order, intercept), as model spec tokens"""
+    fns = [("p", i) for i in range(sp["order"] + 1)] + [("k", k) for k in sp["knots"]]
+    return fns if sp["intercept"] else fns[1:]
+
+
+def _spline_vars(world, k):
+    base = len(world["names"]) + sum(len(f["levels"]) for f in world["facs"])
+    base += sum(len(_spline_fns(sp)) for sp in world.get("splines", [])[:k])
+    return list(range(base, base + len(_spline_fns(world["splines"][k]))))
 
 
 def _nvars(world):
-    return len(world["names"]) + sum(len(f["levels"]) for f in world["facs"])
+    return (len(world["names"]) + sum(len(f["levels"]) for f in world["facs"])
+            + sum(len(_spline_fns(sp)) for sp in world.get("splines", [])))
 
 
 def _factor_vars(world, k):
@@ -82,6 +114,8 @@ def _factor_vars(world, k):
 def _gen_atom(rng, world):
     nnum = len(world["names"])
     r = rng.random()
+    if world.get("splines") and rng.random() < 0.35:
+        return {"op": "A", "kind": "spline", "k": rng.randrange(len(world["splines"]))}
     if world["facs"] and r < 0.3:
         k = rng.randrange(len(world["facs"]))
         return {"op": "A", "kind": "factor", "k": k}
@@ -98,6 +132,10 @@ def _gen_atom(rng, world):
         if world["facs"] and rng.random() < 0.2:
             k = rng.randrange(len(world["facs"]))
             vs = sorted(vs + [rng.choice(_factor_vars(world, k))])
+        if world.get("splines") and rng.random() < 0.2:
+            k = rng.randrange(len(world["splines"]))
+            if _spline_vars(world, k):
+                vs = sorted(vs + [rng.choice(_spline_vars(world, k))])
         monos.append([rng.choice(COEFS), vs])
     return {"op": "A", "kind": "list", "monos": monos}
 
@@ -130,6 +168,8 @@ def _gen_expr(rng, world, depth):
 def _atom_monos(e, world):
     if e["kind"] == "factor":
         return [["1", [v]] for v in _factor_vars(world, e["k"])]
+    if e["kind"] == "spline":
+        return [["1", [v]] for v in _spline_vars(world, e["k"])]
     if e["kind"] == "I":
         return [["1", []]]
     if e["kind"] == "term":
@@ -165,6 +205,9 @@ def _specs_tokens(world):
     for k, fc in enumerate(world["facs"]):
         for lv in fc["levels"]:
             toks.append(f"i {nnum + k} {fc['pool'].index(lv)}")
+    for sp in world.get("splines", []):
+        for kind, a in _spline_fns(sp):
+            toks.append(f"p {sp['v']} {a}" if kind == "p" else f"k {sp['v']} {fr(a)} {sp['order']}")
     return f"{len(toks)} " + " ".join(toks)
 
 
@@ -186,6 +229,12 @@ class _World:
         self.w = world
         self.alg_fail = None      # first violated clause of the +, -, * arithmetic on the real objects
         self.terms = [F.Term(n) for n in world["names"]]
+        try:
+            ts = F.terms(tuple(world["names"])) if len(world["names"]) > 1 else (F.terms(world["names"][0]),)
+            if len(ts) != len(self.terms) or any(not (a == b and F.is_term(a)) for a, b in zip(ts, self.terms)):
+                self.alg_fail = f"terms({world['names']}) = {ts} are not the Terms of those names"
+        except Exception as e:
+            self.alg_fail = f"terms({world['names']}) raised {type(e).__name__}: {e}"
         self.factors = []
         for fc in world["facs"]:
             lv = fc["levels"]
@@ -195,6 +244,12 @@ class _World:
         self.syms = list(self.terms)
         for fac in self.factors:
             self.syms += list(fac.terms)
+        self.splines = []
+        for sp in world.get("splines", []):
+            ns = F.natural_spline(self.terms[sp["v"]], knots=list(sp["knots"]), order=sp["order"],
+                                  intercept=sp["intercept"])
+            self.splines.append(ns)
+            self.syms += list(ns.terms)
         dt = [(n, float) for n in world["names"]]
         for fc in world["facs"]:
             dt.append((fc["name"], {"str": "U3", "int": int, "bytes": "S3"}[fc["kind"]]))
@@ -221,6 +276,8 @@ class _World:
         if e["op"] == "A":
             if e["kind"] == "factor":
                 return self.factors[e["k"]]
+            if e["kind"] == "spline":
+                return self.splines[e["k"]]
             if e["kind"] == "I":
                 return F.I
             if e["kind"] == "term":
@@ -300,9 +357,38 @@ class _World:
                 obs = fc["pool"][int(r[nnum + k])]
                 for lv, ft in zip(fc["levels"], fac.terms):
                     sub[ft] = sp.Integer(1 if lv == obs else 0)
+            for spl, ns in zip(self.w.get("splines", []), self.splines):
+                x = Fraction(r[spl["v"]])
+                for (kind, a), nt in zip(_spline_fns(spl), ns.terms):
+                    val = x ** a if kind == "p" else ((x - Fraction(a)) ** spl["order"] if x > Fraction(a) else Fraction(0))
+                    sub[nt] = sp.Rational(val)
             v = sp.sympify(term).xreplace(sub)
             col.append(Fraction(int(v.p), int(v.q)))
         return col
+
+
+def _exact_pinv(cols, n):
+    """exact rational Moore-Penrose inverse of the design given by its columns (rows of the result)"""
+    import sympy
+    p = len(cols)
+    M = sympy.Matrix(n, p, lambda i, j: sympy.Rational(cols[j][i].numerator, cols[j][i].denominator))
+    P = M.pinv()
+    return [[Fraction(int(P[i, j].p), int(P[i, j].q)) for j in range(n)] for i in range(p)]
+
+
+def _pm_cols(cols, n):
+    return f"{n} {len(cols)} " + " ".join(fr(cols[j][i]) for i in range(n) for j in range(len(cols)))
+
+
+def _pm_rows(rows):
+    return f"{len(rows)} {len(rows[0]) if rows else 0} " + " ".join(fr(v) for r in rows for v in r)
+
+
+def sympy_ne(a, b):
+    try:
+        return bool(a != b)
+    except Exception:
+        return True
 
 
 def _design_cols(D, n):
@@ -329,6 +415,13 @@ def _match_cols(got, want, tol=1e-9):
             return f"no column equals term #{j} evaluated on the data {[float(x) for x in w]}"
         used[hit] = True
     return None
+
+
+def _tfn_tokens(spec):
+    if spec["type"] == "blocks":
+        return f"B {len(spec['ivs'])} " + " ".join(f"{fr(s_)} {fr(e_)} {fr(a_)}"
+                                                     for (s_, e_), a_ in zip(spec["ivs"], spec["amps"]))
+    return f"P {1 if spec['causal'] else 0} {plist([Fraction(x) for x in spec['cs']])}"
 
 
 def _poly(cs, x):
@@ -383,11 +476,11 @@ def _grid_variants(fn, q, base, what, scalar_refusal_ok=False, lists=True, scale
         is_scalar = np.ndim(arg) == 0
         try:
             r = fn(arg)
-        except TypeError as e:
+        except (TypeError, AttributeError) as e:
             if is_scalar and scalar_refusal_ok:
                 tags.append("scalar-time-refused")
                 continue
-            return f"{what} evaluated on a {label} raised TypeError: {str(e)[:120]}", tags
+            return f"{what} evaluated on a {label} raised {type(e).__name__}: {str(e)[:120]}", tags
         except Exception as e:
             return f"{what} evaluated on a {label} ({arg!r}) raised {type(e).__name__}: {str(e)[:120]}", tags
         try:
@@ -413,33 +506,109 @@ def _grid_variants(fn, q, base, what, scalar_refusal_ok=False, lists=True, scale
 class C10(PropertyCheck):
     id = "C10"
     title = "Model formulae and symbolic time courses evaluate to what they denote"
-    lean_modules = ["NipyVerif.Props.C10"]
+    lean_modules = ["NipyVerif.Props.C10", "NipyVerif.Props.C10S", "NipyVerif.Props.C10B", "NipyVerif.Props.C10C"]
     driver = "Drivers/C10.lean"
-    rule = ("cases are seeded random (formula expression tree over Term/Factor/intercept atoms with + - * "
-            "and repeated *, record array) pairs, contrast specifications, design stacks, and event / step / "
-            "block / interpolation / convolution specifications with query grids, plus every binary operation on "
-            "every ordered pair of six fixed atoms (exhaustive); non-trivial = an expression "
-            "with at least one operator, or at least two events/knots/blocks/designs; distinct by full JSON")
+    rule = ("cases are seeded random: sessions (histories of Term / Factor / FactorTerm / fromcol / fromrec creations "
+            "with colliding printed names, int / str / bytes levels, arithmetic, stratify / get_term / main_effect, "
+            "interleaved and repeated designs on one or two typed record arrays); (formula expression tree over "
+            "Term / Factor / intercept / natural_spline atoms with + - * and repeated *, record array) pairs with "
+            "optional subs; contrast specifications (named terms and outside formulae, any rank); RandomEffects "
+            "specifications; design stacks; event / step / block / interpolation / convolution / block_amplitudes / "
+            "drift / HRF specifications with query grids; plus every binary operation on every ordered pair of six "
+            "fixed atoms (exhaustive); non-trivial = an expression with at least one operator, a session with at "
+            "least two objects and one design, or at least two events/knots/blocks/designs; distinct by full JSON")
     assumptions = [
         "sympy lambdify / printing and the canonical ordering of terms (default_sort_key) are trusted: "
         "designs are compared as multisets of columns, names are checked by the oracle",
         "sympy's automatic Mul flattening puts monomials in canonical form (coefficient, sorted powers); "
         "the model's term identity is that canonical form (checked per case by the `terms` line)",
-        "np.linalg.pinv / matrix_rank in contrast_from_cols_or_rows are numeric: the selector theorem needs "
-        "full column rank (hypothesis); rank-deficient designs are checked by the oracle (D Cᵀ = named columns)",
+        "np.linalg.pinv / matrix_rank in contrast_from_cols_or_rows are numeric: the model takes the exact rational "
+        "Moore-Penrose inverse (computed by the harness with sympy) as a parameter and certifies the four Penrose "
+        "equations exactly before use; the implementation's float contrast is compared to 1e-7; contrasts whose "
+        "own columns are dependent (rank reduction through full_rank / SVD) are oracle-only",
         "scipy.interpolate.interp1d(kind=linear) is piecewise-linear interpolation; np.convolve is the full "
         "discrete convolution (both checked to 1e-9 per case)",
         "kernels are polynomials (optionally causal) in the correspondence; the theorems hold for every kernel",
         "non-linear kinds of `interp` (cubic, ...) and symbolic DiracDelta events are not evaluated",
+        "natural_spline: at most one spline per Term in a formula (two splines of the same Term give different "
+        "functions with the same name and argument, for which sympy's Mul is not canonical); nonlinear formulae "
+        "(parameters inside terms, design(param=...)) are not evaluated; Factor.subs raises TypeError by construction "
+        "(self.__class__(terms)) and is modelled as that refusal",
+        "term identity: the model compares levels structurally (int n / str s); the code compares (_to_str(level), "
+        "isinstance(level, str)) - the same, decimal printing of ints being injective (not proved); sympy's symbol "
+        "cache is modelled without eviction",
+        "Factor shortcut `Factor * formula` when the formula is a product whose term *set* equals the factor's: whether "
+        "the shortcut applies depends on sympy's term order (default_sort_key), such session cases are skipped",
         "every time course is also evaluated on float32 / int64 / int32 / uint8 arrays, python and numpy scalars, "
         "0-d, 2-d, non-contiguous, empty and list presentations of the same instants and must give the float64 "
         "values; a scalar time refused with TypeError by step_function/blocks is out of domain (a sampling grid "
         "is an array), a wrong value never is; unsigned grids are not fed to lambdify-generated code (numpy "
         "wraps -t)",
     ]
-    level_note = ("contrast selection is proved under a full-column-rank hypothesis replaced by the "
-                  "selector identity; pinv/rank numerics and lambdify are oracle-only")
-    finding_keys = {}
+    level_note = ("contrasts: proved for any rank with the pseudo-inverse as a certified parameter (unique by "
+                  "pinv_unique); the rank-reduction branch of contrast_from_cols_or_rows (dependent named columns), "
+                  "np.linalg.pinv itself, sympy's term order and lambdify are oracle-only / assumptions")
+    watch = ("nipy/algorithms/statistics/formula/formulae.py", "nipy/modalities/fmri/utils.py",
+             "nipy/modalities/fmri/design.py", "nipy/modalities/fmri/hrf.py", "nipy/modalities/fmri/fmristat/hrf.py")
+    finding_keys = {"design-implemented-function-name-clash":
+                    "Formula.design raises ValueError for a formula holding two implemented functions of the same name "
+                    "(two natural_spline bases): lambdify looks implementations up by name",
+                    "events-coincident-term-add":
+                    "events(): coincident events whose summand reduces to the bare Term t are counted once "
+                    "(Term.__add__: a term plus itself is itself)",
+                    "random-effects-cov-squeezed-design":
+                    "RandomEffects.cov with a single random effect raises ValueError (and returns a scalar for a single "
+                    "observation): Formula.design squeezes the design matrix",
+                    "design-terms-printing-alike":
+                    "Formula.design raises ValueError (duplicate field in the internal term recarray) for a formula "
+                    "holding two distinct terms that print alike"}
+
+    # ------------------------------------------------------------------
+    def translators(self):
+        """Read off `class FactorTerm` how a FactorTerm object is obtained and what its identity is."""
+        path = os.path.join(REPO, "nipy/algorithms/statistics/formula/formulae.py")
+        try:
+            tree = ast.parse(open(path).read())
+        except Exception as e:
+            raise TieBroken(f"formulae.py does not parse: {e}")
+        cls = next((n for n in tree.body if isinstance(n, ast.ClassDef) and n.name == "FactorTerm"), None)
+        if cls is None or [ast.unparse(b) for b in cls.bases] != ["Term"]:
+            raise TieBroken("class FactorTerm(Term) not found in formulae.py")
+        meths = {n.name: n for n in cls.body if isinstance(n, ast.FunctionDef)}
+        new = meths.get("__new__")
+        if new is None or [a.arg for a in new.args.args] != ["cls", "name", "level"]:
+            raise TieBroken("FactorTerm.__new__(cls, name, level) not found")
+        body = [ast.unparse(st) for st in new.body if not (isinstance(st, ast.Expr) and isinstance(st.value, ast.Constant))]
+        name_expr = "f'{_to_str(name)}_{_to_str(level)}'"
+        shapes = {f"new = sympy.Symbol.__xnew__(cls, {name_expr})": False,
+                  f"new = Term.__new__(cls, {name_expr})": True}
+        if len(body) != 4 or body[0] not in shapes or body[1:] != ["new.level = level", "new.factor_name = name", "return new"]:
+            raise TieBroken(f"FactorTerm.__new__ has an unexpected shape: {body}")
+        via_cache = shapes[body[0]]
+        hc = meths.get("_hashable_content")
+        if hc is None:
+            has_level = False
+        else:
+            hb = [ast.unparse(st) for st in hc.body if not (isinstance(st, ast.Expr) and isinstance(st.value, ast.Constant))]
+            want = ("return Term._hashable_content(self) + (_to_str(self.factor_name), "
+                    "isinstance(self.level, (str, bytes)), _to_str(self.level))")
+            if hb != [want]:
+                raise TieBroken(f"FactorTerm._hashable_content has an unexpected shape: {hb}")
+            has_level = True
+        if "__eq__" in meths or "__hash__" in meths:
+            raise TieBroken("FactorTerm defines __eq__ / __hash__: identity is no longer _hashable_content")
+        b = lambda x: "true" if x else "false"
+        content = (
+            "/- GENERATED by harness/props/C10.py from nipy/algorithms/statistics/formula/formulae.py\n"
+            "   (class FactorTerm: `__new__` and `_hashable_content`).  Do not edit. -/\n"
+            "namespace NipyVerif.C10.Gen\n\n"
+            "/-- `FactorTerm.__new__` obtains its object through sympy's symbol cache\n"
+            "    (`Term.__new__(cls, ...)`) rather than `sympy.Symbol.__xnew__(cls, ...)` -/\n"
+            f"def ftThroughSymbolCache : Bool := {b(via_cache)}\n\n"
+            "/-- `FactorTerm._hashable_content` adds (factor name, level is a string, level text) -/\n"
+            f"def ftIdentityHasLevel : Bool := {b(has_level)}\n\n"
+            "end NipyVerif.C10.Gen\n")
+        return [("NipyVerif/Gen/C10Policy.lean", content)]
 
     # ------------------------------------------------------------------
     def generate(self, rng, tier):
@@ -477,7 +646,12 @@ class C10(PropertyCheck):
                     break
             else:
                 e = _gen_atom(rng, world)
-            cases.append({"kind": "design", "world": world, "expr": e, "rec": rng.random() < 0.4})
+            case = {"kind": "design", "world": world, "expr": e, "rec": rng.random() < 0.4}
+            if rng.random() < 0.25 and len(world["names"]) >= 2:
+                case["subs"] = rng.sample(range(len(world["names"])), 2)
+            cases.append(case)
+        for _ in range(120 if q else 2500):
+            cases.append(self._gen_recov(rng))
         for _ in range(n_contrast):
             cases.append(self._gen_contrast(rng))
         for _ in range(n_stack):
@@ -486,12 +660,25 @@ class C10(PropertyCheck):
             k = rng.choice([0, 1, 2, 3, 3, 4, 6])
             times = [rng.choice([0.0, 0.5, 1.0, 2.5, 3.0, 4.25, 7.0, -1.0, 10.0]) for _ in range(k)]
             amps = None if rng.random() < 0.15 else [rng.choice([1.0, 2.0, -1.0, 0.5, 0.0, 3.0, -0.25, 2.75, -1.25]) for _ in range(k)]
+            kern = [rng.choice(["1", "0", "2", "-1", "1/2", "1/4"]) for _ in range(rng.choice([1, 2, 3, 4]))]
+            causal, implfn = rng.random() < 0.5, rng.random() < 0.5
+            if k >= 2 and rng.random() < 0.06:
+                # summands that cancel down to a bare multiple of t: kernel c + x/…, onset c
+                times[1] = times[0]
+                kern = [fr(times[0]), "1"]
+                causal, implfn = False, rng.random() < 0.2
+                bare = rng.random() < 0.7
+                if bare:
+                    amps = None            # unit amplitudes: the summand is the bare Term t
+            gpoly = rng.choice([["0", "1"], ["0", "1"], ["1", "0", "1"], ["0", "2"], ["1/2", "1", "-1"]])
+            if k >= 2 and kern == [fr(times[0]), "1"] and amps is None:
+                gpoly = ["0", "1"]
             cases.append({"kind": "events", "times": times, "amps": amps,
-                          "kernel": [rng.choice(["1", "0", "2", "-1", "1/2", "1/4"]) for _ in range(rng.choice([1, 2, 3, 4]))],
-                          "causal": rng.random() < 0.5, "implfn": rng.random() < 0.5,
-                          "g": rng.choice([["0", "1"], ["0", "1"], ["1", "0", "1"], ["0", "2"], ["1/2", "1", "-1"]]),
+                          "kernel": kern,
+                          "causal": causal, "implfn": implfn,
+                          "g": gpoly,
                           "q": [rng.choice([-2.0, 0.0, 0.5, 1.0, 2.5, 2.75, 3.0, 5.0, 7.0, 8.5, 12.0]) for _ in range(rng.choice([1, 3, 5]))],
-                          "split": rng.randrange(0, k + 1)})
+                          "split": rng.randrange(0, k + 1), "define": rng.random() < 0.3})
         for _ in range(n_step):
             k = rng.choice([1, 2, 3, 4, 6])
             if rng.random() < 0.75:
@@ -516,17 +703,49 @@ class C10(PropertyCheck):
             cases.append(self._gen_conv(rng))
         for _ in range(n_des):
             cases.append(self._gen_fmri_design(rng))
+        for k in range(400 if q else 8000):
+            cases.append(S.gen_session(rng, big=(not q and k % 4 == 0)))
+        for _ in range(60 if q else 1200):
+            cases.append(self._gen_blockamp(rng))
+        for _ in range(60 if q else 1200):
+            cases.append(self._gen_drift(rng))
+        for _ in range(4 if q else 40):
+            cases.append({"kind": "fmristat", "which": rng.choice(["taylor", "spectral"]),
+                          "name": rng.choice(["glover", "afni", "spm"]), "t0": rng.choice([-5.0, -10.0]),
+                          "t1": rng.choice([30.0, 40.0]), "nt": rng.choice([351, 701, 1001]),
+                          "d0": rng.choice([-2.0, -3.0]), "d1": rng.choice([2.0, 3.0]), "dd": rng.choice([0.25, 0.5]),
+                          "ncomp": rng.choice([2, 2, 3])})   # invertR (delay estimate) needs two components
+        for _ in range(36 if q else 600):
+            cases.append({"kind": "hrf", "name": rng.choice(["glover", "dglover", "afni", "spm", "dspm", "ddspm"]),
+                          "q": sorted({rng.choice([-2.0, -0.5, 0.0, 0.5, 1.0, 2.0, 3.25, 5.0, 6.0, 8.5, 12.0, 20.0, 31.0])
+                                       for _ in range(rng.choice([2, 4, 6]))}),
+                          "events": [rng.choice([0.0, 1.0, 2.5, 4.0, 4.0, 10.0]) for _ in range(rng.choice([0, 0, 2, 3]))]})
         # interleave the kinds (deterministically) so that the first failures reported are of different kinds
         by_kind = {}
         for c in cases:
             by_kind.setdefault(c["kind"], []).append(c)
-        order = ["design", "blocks", "fmri", "events", "step", "interp", "conv", "contrast", "stack"]
+        order = ["session", "design", "recov", "blockamp", "drift", "hrf", "fmristat", "blocks", "fmri", "events", "step", "interp", "conv", "contrast", "stack"]
         out, i = [], 0
         while any(by_kind[k] for k in order if k in by_kind):
             for k in order:
                 if by_kind.get(k):
                     out.append(by_kind[k].pop(0))
         return out
+
+    def _gen_recov(self, rng):
+        lkind = rng.choice(["int", "int", "str", "bytes"])
+        pool = [2, 3, 5, 7, 11] if lkind == "int" else ["a", "b", "c", "d", "e"]
+        q = rng.choice([1, 2, 2, 3, 4])
+        levels = rng.sample(pool, q)
+        outsider = 13 if lkind == "int" else "zz"
+        n = rng.choice([1, 2, 3, 4, 5, 6])
+        obs = [rng.choice(levels + ([outsider] if rng.random() < 0.3 else [])) for _ in range(n)]
+        sq = q if rng.random() > 0.06 else q + 1
+        sigma = [[float(rng.choice([0, 1, 2, 4, 6, -1, 0.5, 1.5])) for _ in range(sq)] for _ in range(sq)]
+        if rng.random() < 0.6:
+            sigma = [[sigma[min(i, j)][max(i, j)] for j in range(sq)] for i in range(sq)]
+        return {"kind": "recov", "name": rng.choice(["s", "subj", "g"]), "lkind": lkind, "levels": levels, "obs": obs,
+                "sigma": sigma, "symbolic": rng.random() < 0.15, "mk": rng.random() < 0.5}
 
     def _gen_contrast(self, rng):
         world = _gen_world(rng, max_num=3, max_fac=1)
@@ -555,6 +774,10 @@ class C10(PropertyCheck):
         for i in range(ncon):
             idx = sorted(rng.sample(range(len(monos)), rng.choice([1, 1, 2, min(3, len(monos))][:len(monos)] or [1])))
             cons.append({"name": f"c{i}", "idx": idx, "bare": len(idx) == 1 and rng.random() < 0.5})
+        outside = [m for m in pool if m not in monos and m != ["1", []]]
+        if outside and rng.random() < 0.35:
+            # a contrast formula that is not made of terms of the formula: projected onto the design
+            cons.append({"name": "out", "idx": [], "bare": rng.random() < 0.5, "outside": rng.choice(outside)})
         return {"kind": "contrast", "world": world, "monos": monos, "cons": cons}
 
     def _gen_stack(self, rng):
@@ -629,6 +852,34 @@ class C10(PropertyCheck):
                 "fill": rng.choice([0.0, 0.0, 7.0, 0.75]), "tc": rng.random() < 0.4,
                 "q": sorted(set(qs) | {float(int(lo)), float(int(lo) + 1), float(int(hi))})}
 
+    def _gen_blockamp(self, rng):
+        k = rng.choice([1, 2, 2, 3, 4])
+        dt = rng.choice([0.25, 0.5, 1.0])
+        cuts = sorted(rng.sample([x * 0.5 for x in range(0, 24)], 2 * k))
+        blocks = [[cuts[2 * i], cuts[2 * i + 1], rng.choice([1.0, 2.0, -1.0, 0.5, 2.75])] for i in range(k)]
+        rng.shuffle(blocks)
+        a = rng.choice([0.0, 0.0, -0.5, 1.0])
+        hi = [a, a + rng.choice([1.0, 2.0, 3.5, 4.0])]
+        pad = rng.choice([0.0, 0.5, 1.0, 2.0])
+        lo = cuts[0] - pad + hi[0]
+        top = cuts[-1] + pad + hi[1]
+        qs = sorted({lo - 1.0, lo, lo + dt, lo + 1.5 * dt, (lo + top) / 2, top - 3 * dt, top - 2 * dt, top - dt, top,
+                     top + 2.0, cuts[-1] + hi[0], cuts[-1] + hi[0] + dt}
+                    | {float(int(c_)) for c_ in cuts[:3]})
+        return {"kind": "blockamp", "blocks": blocks, "dt": dt, "pad": pad, "hi": hi,
+                "kernel": [rng.choice(["1", "2", "1/2", "0"]), rng.choice(["0", "1", "-1/4"])][: rng.choice([1, 2])],
+                "causal": rng.random() < 0.5, "noamp": rng.random() < 0.2, "rec": rng.random() < 0.6, "q": qs}
+
+    def _gen_drift(self, rng):
+        n = rng.choice([1, 2, 3, 5, 8])
+        t = [rng.choice([-1.0, 0.0, 0.25, 0.5, 1.0, 1.5, 2.0, 3.0, 4.5, 6.0]) for _ in range(n)]
+        if rng.random() < 0.3:
+            return {"kind": "drift", "which": "fourier", "t": t,
+                    "freq": [rng.choice([0.25, 0.5, 1.0, 2.0, 0.125]) for _ in range(rng.choice([1, 2, 3]))]}
+        return {"kind": "drift", "which": "spline", "t": t, "order": rng.choice([0, 1, 2, 3, 3]),
+                "knots": sorted(rng.sample([-0.5, 0.0, 0.25, 1.0, 2.0, 4.0], rng.choice([0, 1, 2, 4]))),
+                "intercept": rng.random() < 0.6}
+
     def _gen_fmri_design(self, rng):
         btype = rng.choice(["event", "block"])
         k = rng.choice([2, 3, 4, 5])
@@ -648,6 +899,9 @@ class C10(PropertyCheck):
     def run_case(self, case):
         warnings.filterwarnings("ignore")
         return getattr(self, "_" + case["kind"])(case)
+
+    def _session(self, c):
+        return S.run_session(c)
 
     # ---- formula arithmetic + design ---------------------------------
     def _design(self, c):
@@ -731,9 +985,115 @@ class C10(PropertyCheck):
                 tags.append("factor-partition" if covered else "factor-uncovered-level")
         if len(set(monos)) < len(monos):
             tags.append("duplicate-terms")
+        # mean / coefs / params / getterms / design_expr / dtype
+        if fail is None and all(m is not None for m in monos):
+            try:
+                npar, ncoef, nat = len(f.params), len(f.coefs), len(W.F.getterms(f.mean))
+                lines.append(f"counts {etoks} {_specs_tokens(world)}")
+                impl.append(("counts", [npar, ncoef, nat]))
+                de = list(f.design_expr)
+                # the *order* of design_expr / dtype is the order sympy sorts the parameter names in (b0, b1, b10,
+                # b11, b2, ... from 11 terms on): not part of the property, compared as multisets
+                if sorted(map(str, de)) != sorted(map(str, terms)) or \
+                        (len(terms) <= 10 and any(sympy_ne(a, b) for a, b in zip(de, terms))):
+                    fail = f"design_expr {de} is not the list of terms {terms} (a formula linear in its parameters)"
+                elif len(set(names)) == len(names) and sorted(f.dtype.names) != sorted(names):
+                    fail = f"Formula.dtype names {list(f.dtype.names)} are not the term names {names}"
+                elif set(W.F.getparams(f.mean)) != set(f.params) or any(W.F.is_term(p_) for p_ in f.params):
+                    fail = f"params {f.params} are not the non-Term symbols of the mean {f.mean}"
+                tags.append("counts")
+            except Exception as e:
+                fail = f"mean/coefs/params of terms {terms} raised {type(e).__name__}: {str(e)[:200]}"
+        # Formula.subs(old Term, new Term)
+        sb = c.get("subs")
+        if fail is None and sb is not None and not any(sp_["v"] == sb[0] for sp_ in world.get("splines", [])):
+            a, b = sb
+            try:
+                g = f.subs(W.terms[a], W.terms[b])
+                gt = list(g.terms)
+                Dg = g.design(W.data, return_float=True)
+                gcols = _design_cols(Dg, n)
+                lines.append(f"subs {a} {b} {etoks} {_specs_tokens(world)} {_rows_tokens(world)}")
+                impl.append(("cols", gcols))
+                wantg = [W.exact_column(t.subs(W.terms[a], W.terms[b])) for t in terms]
+                d = _match_cols(gcols, wantg)
+                if len(gt) != len(terms):
+                    fail = f"Formula{terms}.subs({W.terms[a]}, {W.terms[b]}) has {len(gt)} terms"
+                elif d is not None:
+                    fail = f"design of Formula{terms}.subs({W.terms[a]}, {W.terms[b]}) = {gt}: {d}"
+                tags.append("subs")
+            except TypeError as e:
+                if W.F.is_factor(f):
+                    lines.append(f"subs {a} {b} {etoks} {_specs_tokens(world)} {_rows_tokens(world)}")
+                    impl.append(("err", errname(e)))
+                    tags.append("subs-factor-refused")
+                else:
+                    fail = f"Formula.subs raised TypeError: {e}"
+            except Exception as e:
+                if len(terms) and not all(str(t_) in ("0",) for t_ in terms):
+                    fail = f"Formula{terms}.subs raised {type(e).__name__}: {str(e)[:200]}"
         tags.append("op=" + c["expr"]["op"])
         return {"lines": lines, "impl": impl, "oracle": fail, "nontrivial": c["expr"]["op"] != "A",
                 "tags": tags, "mutated": snap.changed()}
+
+    # ---- RandomEffects.cov ------------------------------------------------
+    def _recov(self, c):
+        from nipy.algorithms.statistics.formula import formulae as F
+        levels, obs, q, n = c["levels"], c["obs"], len(c["levels"]), len(c["obs"])
+        lv = [l.encode() for l in levels] if c["lkind"] == "bytes" else list(levels)
+        tags = ["recov"]
+        if c["lkind"] == "int" and c["mk"]:
+            data = F.make_recarray([float(v) for v in obs], [c["name"]])
+            tags.append("make_recarray")
+        else:
+            dt = {"int": int, "str": "U4", "bytes": "S4"}[c["lkind"]]
+            data = np.array([(v.encode() if c["lkind"] == "bytes" else v,) for v in obs], dtype=[(c["name"], dt)])
+        idx = [levels.index(v) if v in levels else -1 for v in obs]
+        sig = c["sigma"]
+        line = (f"recov {q} {n} " + " ".join(str(k) for k in idx) + f" {len(sig)} {len(sig[0]) if sig else 0} "
+                + " ".join(fr(v) for r in sig for v in r))
+        line = " ".join(line.split())
+        snap = Snapshot(data=data)
+        fac = F.Factor(c["name"], lv)
+        sigma = None if c["symbolic"] else np.array(sig, dtype=float).reshape(len(sig), -1)
+        try:
+            re = F.RandomEffects(fac.terms, sigma=sigma)
+        except ValueError as e:
+            bad = sigma is not None and sigma.shape != (q, q)
+            return {"lines": [line] if not c["symbolic"] else [], "impl": [("err", errname(e))] if not c["symbolic"] else [],
+                    "oracle": None if bad else f"RandomEffects(...) raised ValueError: {e}",
+                    "nontrivial": False, "tags": tags + ["sigma-shape-refused"], "mutated": None}
+        try:
+            C = re.cov(data)
+        except Exception as e:
+            return {"lines": [], "impl": [], "nontrivial": True, "tags": tags + ["raised"],
+                    "oracle": (f"RandomEffects(Factor({c['name']!r}, {lv!r}).terms, sigma={sig if not c['symbolic'] else None})"
+                               f".cov(data with {n} observations {obs}) raised {type(e).__name__}: {str(e)[:160]}")}
+        fail = None
+        if np.shape(C) != (n, n):
+            fail = (f"RandomEffects.cov for {n} observations and {q} random effects has shape {np.shape(C)}, "
+                    f"not ({n}, {n})")
+        elif c["symbolic"]:
+            tags.append("symbolic-sigma")
+            for i in range(n):
+                for j in range(n):
+                    zero = (C[i][j] == 0)
+                    if zero != (idx[i] != idx[j] or idx[i] < 0):
+                        fail = (f"symbolic RandomEffects.cov entry ({i},{j}) is {C[i][j]} for observations "
+                                f"{obs[i]!r}, {obs[j]!r} (levels {levels})")
+            return {"lines": [], "impl": [], "oracle": fail, "nontrivial": n >= 2, "tags": tags, "mutated": snap.changed()}
+        else:
+            Cf = np.asarray(C, dtype=float)
+            for i in range(n):
+                for j in range(n):
+                    want = sig[idx[i]][idx[j]] if idx[i] >= 0 and idx[j] >= 0 else 0.0
+                    if fail is None and Cf[i, j] != want:
+                        fail = (f"RandomEffects.cov entry ({i},{j}) is {Cf[i, j]}; observations {obs[i]!r}, {obs[j]!r} "
+                                f"(levels {levels}) give sigma[{idx[i]}][{idx[j]}] = {want}")
+        if fail is not None:
+            return {"lines": [], "impl": [], "oracle": fail, "nontrivial": True, "tags": tags, "mutated": snap.changed()}
+        return {"lines": [line], "impl": [("mat", np.asarray(C, dtype=float).tolist())], "oracle": None,
+                "nontrivial": n >= 2 and q >= 2, "tags": tags, "mutated": snap.changed()}
 
     # ---- contrasts -----------------------------------------------------
     def _contrast(self, c):
@@ -744,12 +1104,23 @@ class C10(PropertyCheck):
         terms = [W.mono(cf, vs) for cf, vs in c["monos"]]
         f = F.Formula(terms)
         cons = {}
+        outside_cols = {}
         for cn in c["cons"]:
+            if "outside" in cn:
+                ot = W.mono(*cn["outside"])
+                cons[cn["name"]] = ot if cn["bare"] else F.Formula([ot])
+                outside_cols[cn["name"]] = W.exact_column(ot)
+                continue
             sub = [terms[i] for i in cn["idx"]]
             cons[cn["name"]] = sub[0] if cn["bare"] else F.Formula(sub)
         snap = Snapshot(data=W.data)
         wantx = np.array([[float(x) for x in W.exact_column(t)] for t in terms]).T
-        degenerate = any(np.linalg.matrix_rank(wantx[:, cn["idx"]]) < len(cn["idx"]) for cn in c["cons"])
+        degenerate = any(np.linalg.matrix_rank(wantx[:, cn["idx"]]) < len(cn["idx"]) for cn in c["cons"]
+                         if "outside" not in cn) or any(not any(col) for col in outside_cols.values())
+        # an outside contrast orthogonal to every column of the design projects to nothing: not estimable, refused
+        exact_cols = [W.exact_column(t) for t in terms]
+        degenerate = degenerate or any(all(sum(a * b for a, b in zip(col, dc)) == 0 for dc in exact_cols)
+                                       for col in outside_cols.values())
         try:
             D, cm = f.design(W.data, contrasts=cons)
         except Exception as e:
@@ -768,12 +1139,33 @@ class C10(PropertyCheck):
         full = fail is None and np.linalg.matrix_rank(want) == p and np.linalg.cond(want) < 1e6
         lines, impl = [], []
         mtoks = lambda ms: f"{len(ms)} " + " ".join(f"{cf} {len(vs)}" + "".join(f" {v}" for v in vs) for cf, vs in ms)
+        exactD = [W.exact_column(t) for t in terms]        # columns
+        Pex = None
         for cn in c["cons"]:
             C = np.atleast_2d(np.asarray(cm[cn["name"]], dtype=float))
+            if "outside" in cn:
+                Lx = [outside_cols[cn["name"]]]
+                Lf = np.array([[float(v) for v in Lx[0]]]).T
+                if np.linalg.matrix_rank(want) == 0 or not np.any(np.abs(want.T @ Lf) > 1e-9):
+                    tags.append("outside-contrast-orthogonal")     # projects to 0: the rank reduction branch
+                    continue
+                if Pex is None:
+                    Pex = _exact_pinv(exactD, n)
+                lines.append(f"contrastP {_pm_cols(exactD, n)} {_pm_rows(Pex)} {_pm_cols(Lx, n)}")
+                impl.append(("mat", C.tolist()))
+                tags.append("outside-contrast")
+                continue
             L = want[:, cn["idx"]]
             if np.linalg.matrix_rank(L) < len(cn["idx"]):
                 tags.append("degenerate-contrast")
                 continue
+            if fail is None and C.shape == (len(cn["idx"]), p):
+                if Pex is None:
+                    Pex = _exact_pinv(exactD, n)
+                lines.append(f"contrastP {_pm_cols(exactD, n)} {_pm_rows(Pex)} "
+                             f"{_pm_cols([exactD[i] for i in cn['idx']], n)}")
+                impl.append(("mat", C.tolist()))
+                tags.append("certified-pinv")
             if fail is None and C.shape != (len(cn["idx"]), p):
                 fail = (f"contrast {cn['name']} for {len(cn['idx'])} independent named columns of a {p}-column "
                         f"design has shape {C.shape}")
@@ -895,6 +1287,14 @@ class C10(PropertyCheck):
             return {"lines": [], "impl": [], "nontrivial": True, "tags": ["events", "raised"],
                     "oracle": f"events/lambdify_t raised {type(e).__name__}: {str(e)[:200]}"}
         mut = snap.changed()
+        dfail = None
+        if c.get("define"):
+            try:
+                dv = _bc(U.lambdify_t(U.define("evf", ex))(q), len(q))
+                if not all_close(dv, vals, 1e-12, 1e-12):
+                    dfail = f"define('evf', expr)(t) at {c['q']} is {dv}, but expr evaluates to {vals}"
+            except Exception as e:
+                dfail = f"define raised {type(e).__name__}: {str(e)[:160]}"
         am = c["amps"] if c["amps"] is not None else [1.0] * len(c["times"])
         kcs = [Fraction(x) for x in c["kernel"]]
         gcs = [Fraction(x) for x in c["g"]]
@@ -903,11 +1303,11 @@ class C10(PropertyCheck):
             return Fraction(0) if (c["causal"] and x < 0) else _poly(kcs, x)
         direct = [sum((_poly(gcs, Fraction(a_)) * kval(Fraction(t) - Fraction(tm)) for tm, a_ in zip(c["times"], am)),
                       Fraction(0)) for t in c["q"]]
-        fail = None
-        if not all_close(vals, direct, 1e-9, 1e-9):
+        fail = dfail
+        if fail is None and not all_close(vals, direct, 1e-9, 1e-9):
             fail = (f"events(times={c['times']}, amplitudes={c['amps']}) at t={c['q']}: {vals} is not the "
                     f"amplitude-weighted sum of shifted kernels {[float(x) for x in direct]}")
-        else:
+        elif fail is None:
             s = c["split"]
             try:
                 parts = []
@@ -1096,6 +1496,11 @@ class C10(PropertyCheck):
                         f"samples gives {full[hit[0]]}")
             if (t < grid[0] or t > grid[-1]) and v != c["fill"]:
                 fail = f"convolved function outside its support at t={t} is {v}, expected fill {c['fill']}"
+            if fail is None and grid[0] <= t <= grid[-1]:
+                w = float(np.interp(t, grid, full))
+                if abs(v - w) > 1e-9 * max(1.0, abs(w)):
+                    fail = (f"convolved function at t={t} is {v}; linear interpolation of the direct numerical "
+                            f"convolution of the samples gives {w}")
         if fail is None and not c["tc"]:
             ex2 = U.convolve_functions(gex, fex, c["gi"], c["fi"], c["dt"], fill=c["fill"])
             v2 = _bc(U.lambdify_t(ex2)(q), len(q))
@@ -1104,8 +1509,235 @@ class C10(PropertyCheck):
         if fail is None:
             fail, gtags = _grid_variants(lam, c["q"], vals, "the numerically convolved function")
             tags += gtags
-        return {"lines": [line], "impl": [("vals", vals)], "oracle": fail, "nontrivial": True, "tags": tags,
-                "mutated": None}
+        # the same through the model's own sampling (`_eval_for`: np.arange + the function)
+        line2 = (f"convfn {_tfn_tokens(c['f'])} {_tfn_tokens(c['g'])} {fr(c['fi'][0])} {fr(c['fi'][1])} "
+                 f"{fr(c['gi'][0])} {fr(c['gi'][1])} {fr(c['dt'])} {fr(c['fill'])} {plist(c['q'])}")
+        return {"lines": [line, line2], "impl": [("vals", vals), ("vals", vals)], "oracle": fail, "nontrivial": True,
+                "tags": tags, "mutated": None}
+
+    # ---- block_amplitudes / openfmri2nipy ----------------------------------
+    def _blockamp(self, c):
+        from sympy.utilities.lambdify import implemented_function
+        from nipy.modalities.fmri import design as D
+        cs = [Fraction(x) for x in c["kernel"]]
+        fl = [float(x) for x in cs]
+
+        def num(x):
+            x = np.asarray(x, dtype=float)
+            y = np.zeros_like(x)
+            for cf in reversed(fl):
+                y = cf + x * y
+            return np.where(x >= 0, y, 0.0) if c["causal"] else y
+        h = implemented_function("hk", num)
+        oda = np.array([[b[0], b[1] - b[0], b[2]] for b in c["blocks"]], dtype=float)
+        tq = np.array(c["q"], dtype=float)
+        snap = Snapshot(oda=oda, tq=tq)
+        tags = ["block_amplitudes"]
+        try:
+            spec = D.openfmri2nipy(oda)
+        except Exception as e:
+            return {"lines": [], "impl": [], "nontrivial": True, "tags": tags + ["raised"],
+                    "oracle": f"openfmri2nipy raised {type(e).__name__}: {e}"}
+        fail = None
+        if spec.dtype.names != ("start", "end", "amplitude") or spec.shape != (len(c["blocks"]),) or \
+                [list(map(float, r)) for r in spec.tolist()] != [[b[0], b[1], b[2]] for b in c["blocks"]]:
+            fail = f"openfmri2nipy({oda.tolist()}) is {spec!r}: not (start, start + duration, amplitude)"
+        arg = spec if c["rec"] else (spec[["start", "end"]] if c["noamp"] else np.array([list(b) for b in c["blocks"]]))
+        if c["noamp"] and not c["rec"]:
+            arg = np.array([list(b[:2]) for b in c["blocks"]])
+        elif c["noamp"]:
+            arg = np.array([tuple(b[:2]) for b in c["blocks"]], dtype=[("start", float), ("end", float)])
+        try:
+            X, cons = D.block_amplitudes("cond", arg, tq, hrfs=(h,), convolution_padding=c["pad"],
+                                         convolution_dt=c["dt"], hrf_interval=tuple(c["hi"]))
+            vals = _bc(np.asarray(X, dtype=float).reshape(-1), len(tq))
+        except Exception as e:
+            return {"lines": [], "impl": [], "nontrivial": True, "tags": tags + ["raised"],
+                    "oracle": f"block_amplitudes raised {type(e).__name__}: {str(e)[:200]}"}
+        if fail is None and (list(cons) != ["cond_0"] or np.asarray(cons["cond_0"]).tolist() != [1.0]):
+            fail = f"block_amplitudes contrasts for one HRF are {cons}"
+        bl = [[b[0], b[1], 1.0 if c["noamp"] else b[2]] for b in c["blocks"]]
+        lo = min(min(b[0], b[1]) for b in bl) - c["pad"]
+        hi = max(max(b[0], b[1]) for b in bl) + c["pad"]
+        # direct numerical convolution of the samples (blocks are disjoint here)
+        dtf = Fraction(c["dt"])
+
+        def bval(t):
+            for s_, e_, a_ in bl:
+                if s_ <= t < e_:
+                    return Fraction(a_)
+            return Fraction(0)
+
+        def kval(t):
+            return Fraction(0) if (c["causal"] and t < 0) else _poly(cs, t)
+        nf = int(-((Fraction(lo) - Fraction(hi)) // dtf))
+        ng = int(-((Fraction(c["hi"][0]) - Fraction(c["hi"][1])) // dtf))
+        fv = [bval(Fraction(lo) + k * dtf) for k in range(nf)]
+        gv = [kval(Fraction(c["hi"][0]) + k * dtf) for k in range(ng)]
+        full = np.convolve([float(x) for x in fv], [float(x) for x in gv]) * c["dt"]
+        grid = np.arange(len(full)) * c["dt"] + lo + c["hi"][0]
+        for t, v in zip(c["q"], vals):
+            hit = np.nonzero(grid == t)[0]
+            if fail is None and len(hit) and abs(v - full[hit[0]]) > 1e-9 * max(1.0, abs(full[hit[0]])):
+                fail = (f"block_amplitudes(blocks={c['blocks']}, padding={c['pad']}, dt={c['dt']}, hrf_interval={c['hi']}) "
+                        f"at grid time {t} is {v}; direct numerical convolution of the samples gives {full[hit[0]]}")
+            if fail is None and (t < grid[0] or t > grid[-1]) and v != 0.0:
+                fail = f"block_amplitudes outside the convolution support [{grid[0]}, {grid[-1]}] at t={t} is {v}, expected 0"
+            if fail is None and grid[0] <= t <= grid[-1]:
+                w = float(np.interp(t, grid, full))
+                if abs(v - w) > 1e-9 * max(1.0, abs(w)):
+                    fail = (f"block_amplitudes(blocks={c['blocks']}, padding={c['pad']}, dt={c['dt']}, hrf_interval={c['hi']}) "
+                            f"at t={t} is {v}; linear interpolation of the direct numerical convolution gives {w}")
+        ftoks = f"B {len(bl)} " + " ".join(f"{fr(b[0])} {fr(b[1])} {fr(b[2])}" for b in bl)
+        gtoks = f"P {1 if c['causal'] else 0} {plist(cs)}"
+        line = (f"convfn {ftoks} {gtoks} {fr(lo)} {fr(hi)} {fr(c['hi'][0])} {fr(c['hi'][1])} {fr(c['dt'])} 0 "
+                f"{plist(c['q'])}")
+        return {"lines": [line], "impl": [("vals", vals)], "oracle": fail, "nontrivial": len(bl) >= 2,
+                "tags": tags + (["no-amplitude"] if c["noamp"] else []), "mutated": snap.changed()}
+
+    # ---- hrf.py: symbolic HRFs evaluate to their numerical definitions (oracle only) ---------
+    def _hrf(self, c):
+        from nipy.modalities.fmri import hrf as H
+        from nipy.modalities.fmri import utils as U
+        q = np.array(c["q"], dtype=float)
+        name = c["name"]
+        sym, num = getattr(H, name), getattr(H, name + "t")
+        tags = ["hrf", "hrf-" + name]
+        try:
+            lam = U.lambdify_t(sym(U.T))
+            vals = _bc(lam(q), len(q))
+            direct = np.asarray(num(q), dtype=float).tolist()
+        except Exception as e:
+            return {"lines": [], "impl": [], "nontrivial": True, "tags": tags + ["raised"],
+                    "oracle": f"hrf.{name} raised {type(e).__name__}: {str(e)[:200]}"}
+        fail = None
+        if not all_close(vals, direct, 1e-12, 1e-12):
+            fail = f"lambdify_t({name}(t)) at {c['q']} is {vals}, the numerical {name}t gives {direct}"
+        if fail is None and name in ("spm", "glover", "afni", "dspm", "ddspm", "dglover"):
+            neg = [v for t, v in zip(c["q"], vals) if t < 0]
+            if any(abs(v) > 1e-12 for v in neg):
+                fail = f"{name}(t) is not 0 before time 0: {neg}"
+        if fail is None and name == "dspm":
+            want = (np.asarray(H.spmt(q)) - np.asarray(H.spmt(q - 1))).tolist()
+            if not all_close(vals, want, 1e-12, 1e-12):
+                fail = f"dspmt(t) is not spmt(t) - spmt(t - 1) at {c['q']}"
+        if fail is None and name in ("spm", "glover", "afni"):
+            tt = np.arange(0.02, 50.02, 0.02)
+            tot = float(np.sum(num(tt)) * 0.02)
+            if abs(tot - 1.0) > 1e-9:
+                fail = f"{name}t does not integrate to 1 on the grid it is normalised on: {tot}"
+        if fail is None and c["events"]:
+            # events(...) with this HRF is the superposition of shifted copies
+            on = c["events"]
+            ex = U.events(on, f=sym)
+            ev = _bc(U.lambdify_t(ex)(q), len(q))
+            want = sum((np.asarray(num(q - t0), dtype=float) for t0 in on), np.zeros(len(q))).tolist()
+            if not all_close(ev, want, 1e-10, 1e-12):
+                fail = f"events({on}, f={name}) at {c['q']} is {ev}, not the sum of shifted {name}t {want}"
+        gtags = []
+        if fail is None:
+            # the numerical HRFs take arrays of times (`t.shape`); a bare python / numpy scalar is refused
+            fail, gtags = _grid_variants(lam, c["q"], vals, f"{name}(t)", lists=False, unsigned=False,
+                                         scalar_refusal_ok=name in ("spm", "dspm", "ddspm"))
+        return {"lines": [], "impl": [], "oracle": fail, "nontrivial": True, "tags": tags + gtags, "mutated": None}
+
+    # ---- fmristat/hrf.py: delay expansions (oracle only; SVD / pinv / gradient numerics) -----
+    def _fmristat(self, c):
+        from nipy.modalities.fmri import hrf as H
+        from nipy.modalities.fmri import utils as U
+        from nipy.modalities.fmri.fmristat import hrf as FH
+        h = getattr(H, c["name"])
+        ht = getattr(H, c["name"] + "t")
+        time = np.linspace(c["t0"], c["t1"], c["nt"])
+        delta = np.arange(c["d0"], c["d1"] + c["dd"] / 2, c["dd"])
+        dt = time[1] - time[0]
+        tags = ["fmristat", "fmristat-" + c["which"]]
+        snap = Snapshot(time=time, delta=delta)
+        fail = None
+        try:
+            if c["which"] == "taylor":
+                (h0, dh), approx = FH.taylor_approx(h, time=time, delta=delta)
+                dv = np.asarray(U.lambdify_t(dh(U.T))(time), dtype=float)
+                want = -2 * np.gradient(np.asarray(ht(time), dtype=float), dt)
+                scale = max(1.0, float(np.abs(want).max()))
+                if h0 is not h:
+                    fail = "taylor_approx does not return the HRF itself as first component"
+                elif not np.allclose(dv, want, rtol=0, atol=1e-9 * scale):
+                    fail = f"taylor_approx({c['name']}): the derivative component is not -2 * gradient(hrf) on the time grid"
+                elif not np.allclose(approx(time, 0.0), ht(time), rtol=0, atol=1e-7 * max(1.0, float(np.abs(ht(time)).max()))):
+                    fail = f"taylor_approx({c['name']}).approx(t, delta=0) is not the HRF itself"
+            else:
+                basis, approx = FH.spectral_decomposition(h, time=time, delta=delta, ncomp=c["ncomp"])
+                B = np.array([np.asarray(U.lambdify_t(b(U.T))(time), dtype=float) for b in basis])
+                G = B @ B.T
+                off = G - np.diag(np.diag(G))
+                if len(basis) != c["ncomp"]:
+                    fail = f"spectral_decomposition returned {len(basis)} components for ncomp={c['ncomp']}"
+                elif np.abs(off).max() > 1e-7 * np.abs(np.diag(G)).max():
+                    fail = f"spectral_decomposition({c['name']}): the components are not orthogonal on the time grid"
+                elif abs(abs(float(B[0].sum() * dt)) - 1.0) > 1e-9:
+                    fail = "spectral_decomposition: the first component does not integrate to +-1"
+                elif approx.coef[0](0.0) < 0:
+                    fail = "spectral_decomposition: the coefficient of the first component at delay 0 is negative"
+                else:
+                    # least squares: the residual of every shifted HRF is orthogonal to the components
+                    for d in delta[:: max(1, len(delta) // 4)]:
+                        r = approx(time, d) - np.nan_to_num(ht(time - d))
+                        if np.abs(B @ r).max() > 1e-6 * max(1.0, float(np.abs(B).max()) * float(np.abs(ht(time - d)).sum())):
+                            fail = (f"spectral_decomposition({c['name']}).approx(t, {d}) is not the least-squares fit of the "
+                                    f"HRF shifted by {d} on the components")
+                            break
+        except Exception as e:
+            fail = f"fmristat.hrf.{c['which']} raised {type(e).__name__}: {str(e)[:200]}"
+        return {"lines": [], "impl": [], "oracle": fail, "nontrivial": True, "tags": tags, "mutated": snap.changed()}
+
+    # ---- design.natural_spline / design.fourier_basis (drifts) -----------------
+    def _drift(self, c):
+        from nipy.modalities.fmri import design as D
+        tv = np.array(c["t"], dtype=float)
+        snap = Snapshot(tv=tv)
+        n = len(tv)
+        if c["which"] == "fourier":
+            try:
+                X = np.asarray(D.fourier_basis(tv, np.array(c["freq"], dtype=float)), dtype=float).reshape(n, -1)
+            except Exception as e:
+                return {"lines": [], "impl": [], "nontrivial": True, "tags": ["fourier_basis", "raised"],
+                        "oracle": f"design.fourier_basis raised {type(e).__name__}: {str(e)[:200]}"}
+            want = []
+            for f in c["freq"]:
+                want += [np.cos(2 * np.pi * f * tv).tolist(), np.sin(2 * np.pi * f * tv).tolist()]
+            d = _match_cols(X.T.tolist(), want, 1e-9) if X.shape[1] == len(want) else f"{X.shape[1]} columns"
+            fail = None if d is None else f"fourier_basis(t, {c['freq']}) is not cos/sin(2 pi f t) per frequency: {d}"
+            return {"lines": [], "impl": [], "oracle": fail, "nontrivial": True, "tags": ["fourier_basis"],
+                    "mutated": snap.changed()}
+        sp = {"v": 0, "order": c["order"], "knots": c["knots"], "intercept": c["intercept"]}
+        fns = _spline_fns(sp)
+        try:
+            X = D.natural_spline(tv, knots=list(c["knots"]), order=c["order"], intercept=c["intercept"])
+            cols = _design_cols(X, n)
+        except Exception as e:
+            if not fns:     # a spline basis without any function: an empty formula, refused
+                return {"lines": [], "impl": [], "oracle": None, "nontrivial": False,
+                        "tags": ["drift-spline", "empty-refused"], "mutated": snap.changed()}
+            return {"lines": [], "impl": [], "nontrivial": True, "tags": ["drift-spline", "raised"],
+                    "oracle": f"design.natural_spline raised {type(e).__name__}: {str(e)[:200]}"}
+        want = []
+        for kind, a in fns:
+            want.append([Fraction(x) ** a if kind == "p" else
+                         ((Fraction(x) - Fraction(a)) ** c["order"] if Fraction(x) > Fraction(a) else Fraction(0))
+                         for x in c["t"]])
+        fail = None
+        if len(cols) != len(want) or any(not all_close(g, w, 1e-9, 1e-9) for g, w in zip(cols, want)):
+            fail = (f"design.natural_spline(t={c['t']}, knots={c['knots']}, order={c['order']}, intercept={c['intercept']}) "
+                    f"columns {cols} are not t**i then (t-k)**order*(t>k) in order")
+        specs = ["n 0"] + [f"p 0 {a}" if kind == "p" else f"k 0 {fr(a)} {c['order']}" for kind, a in fns]
+        etoks = f"A 0 {len(fns)} " + " ".join(f"1 1 {i + 1}" for i in range(len(fns)))
+        line = (f"design {etoks} {len(specs)} {' '.join(specs)} {n} 1 " + " ".join(fr(x) for x in c["t"]))
+        if not fns:
+            return {"lines": [], "impl": [], "oracle": fail, "nontrivial": False, "tags": ["drift-spline", "empty"],
+                    "mutated": snap.changed()}
+        return {"lines": [line], "impl": [("cols", cols)], "oracle": fail, "nontrivial": True,
+                "tags": ["drift-spline"], "mutated": snap.changed()}
 
     # ---- event_design / block_design (oracle only) ------------------------
     def _fmri(self, c):
@@ -1161,9 +1793,11 @@ class C10(PropertyCheck):
     # ------------------------------------------------------------------
     def compare(self, case, impl_obs, model_out):
         kind = impl_obs[0]
+        if kind == "session":
+            return S.compare_session(impl_obs[1], model_out)
         if kind == "err":
             return None if model_out.startswith("error") else f"impl raised {impl_obs[1]}, model says {model_out[:120]}"
-        if model_out.startswith(("error", "bad-op")):
+        if model_out.startswith(("error", "bad-op", "bad-cert")):
             return f"impl returned a value, model says {model_out}"
         if kind == "terms":
             _, isf, monos = impl_obs
@@ -1175,6 +1809,9 @@ class C10(PropertyCheck):
             if (flag == "F") != isf:
                 return f"is_factor impl={isf} model={flag}"
             return None
+        if kind == "counts":
+            return None if [int(t) for t in model_out.split()] == list(impl_obs[1]) else \
+                f"(params, coefs, getterms) impl={impl_obs[1]} model={model_out}"
         if kind == "cols":
             mcols = [parse_rats(s) for s in model_out.split(" | ")] if model_out.strip() else []
             d = _match_cols(impl_obs[1], mcols)
@@ -1223,6 +1860,9 @@ class C10(PropertyCheck):
 
     def shrink(self, case):
         k = case["kind"]
+        if k == "session":
+            yield from S.shrink_session(case)
+            return
         if "q" in case and len(case["q"]) > 1 and k != "design":
             for i in range(len(case["q"])):
                 c = dict(case); c["q"] = [case["q"][i]]
@@ -1238,6 +1878,9 @@ class C10(PropertyCheck):
             for idx in self._sublists(len(w["rows"])):
                 c = dict(case); c["world"] = dict(w, rows=[w["rows"][i] for i in idx])
                 yield c
+        elif k == "recov":
+            for idx in self._sublists(len(case["obs"])):
+                yield dict(case, obs=[case["obs"][i] for i in idx])
         elif k == "events":
             for idx in self._sublists(len(case["times"])):
                 c = dict(case)
@@ -1265,6 +1908,16 @@ class C10(PropertyCheck):
                 yield c
 
     def classify(self, case, failure):
+        if "occurs more than once" in failure and "raised ValueError" in failure:
+            return "design-terms-printing-alike"
+        if "more than one implementation with name" in failure:
+            return "design-implemented-function-name-clash"
+        if case.get("kind") == "events" and "amplitude-weighted sum" in failure and not case.get("implfn") \
+                and len(set(case["times"])) < len(case["times"]):
+            return "events-coincident-term-add"
+        if case.get("kind") == "recov" and (len(case["levels"]) == 1 or len(case["obs"]) == 1) and \
+                ("not aligned" in failure or "has shape" in failure):
+            return "random-effects-cov-squeezed-design"
         return None
 
 
